@@ -41,6 +41,9 @@ DOMAINS = {
     'float-points': (((0.5, 0.5), (2.5, 2.5)), ()),
     'float-point': (((0.29, 0.29),), ()),
     'int-points': (((3, 3), (9, 9)), ()),
+    'late-list3': ((), ('a', 'b', 'c')),
+    'late-int': (((0, 3),), ()),
+    'late-mixed': (((0, 2),), ('x', 'y')),
     'int-float': (((1, 2.5),), ()),
     'mixed': (((0, 2),), ('x', 'y')),
     'empty': ((), ()),
@@ -83,7 +86,7 @@ def cases(tier, seed):
                 yield ('X', opa, opb, m)
     # the same model object analysed, edited in place, analysed again by the same operation object
     for op in OPS:
-        for m in sp.structures_upto(3 if tier == 'quick' else 4):
+        for m in sp.structures_upto(4):
             yield ('HE', op, m)
     for op in ('FMMetrics', 'FMCoreFeatures', 'FMEstimatedConfigurationsNumber', 'FMAtomicSets'):
         for t in list(cm.k1())[::3] + list(cm.k2_subset())[::5]:
@@ -531,7 +534,14 @@ def _run_generation(model, leaves_only, pre, domkey, prefix):
     try:
         op = ops.GenerateRandomAttribute()
         op.set_name(ATTR)
-        if spec is not None:
+        if spec is not None and domkey.startswith('late-'):
+            # the domain object is handed over first and gets its lists afterwards (Domain's own setters):
+            # what counts is the domain as it is when execute() runs
+            dom = Domain([Range(100, 101)], ['placeholder'])
+            op.set_domain(dom)
+            dom.set_range_list([Range(lo, hi) for (lo, hi) in spec[0]])
+            dom.set_element_list(list(spec[1]))
+        elif spec is not None:
             op.set_domain(Domain([Range(lo, hi) for (lo, hi) in spec[0]], list(spec[1])))
         op.set_only_leaf_features(leaves_only)
         try:
